@@ -13,6 +13,11 @@ Steps (all in the scratch worktree, never in /repo, except step 4 which applies 
 """
 import json, os, subprocess, sys, shutil, time
 
+# where the checks run and which gdstk tree they build: overridable so that a confirmation can run
+# next to another job (copy of /verif, separate worktree of /repo)
+VERIF = os.environ.get("SEED_VERIF", "/verif")
+REPO = os.environ.get("SEED_REPO", "/repo")
+
 def sh(cmd, **kw):
     return subprocess.run(cmd, shell=True, text=True, capture_output=True, **kw)
 
@@ -54,20 +59,20 @@ def main():
     meta["confirmed"]["ok"] = ok
     print("confirm:", json.dumps(meta["confirmed"], indent=1))
     # run our checks against it
-    st = sh("git -C /repo status --porcelain -- src include external")
+    st = sh(f"git -C {REPO} status --porcelain -- src include external")
     assert st.stdout.strip() == "", "/repo not clean: " + st.stdout
-    a = sh(f"git -C /repo apply {seed}/patch.diff"); assert a.returncode == 0, a.stderr
+    a = sh(f"git -C {REPO} apply {seed}/patch.diff"); assert a.returncode == 0, a.stderr
     try:
         for c in checks:
             t0 = time.time()
-            r = sh(f"cd /verif && VERIF_EVIDENCE_DIR=/tmp/seed_evidence ./check {c} --tier quick", timeout=3000)
+            r = sh(f"cd {VERIF} && VERIF_REPO={REPO} VERIF_EVIDENCE_DIR=/tmp/seed_evidence ./check {c} --tier quick", timeout=3000)
             lines = [l for l in r.stdout.splitlines() if l.startswith(("VIOLATION", "KNOWN-FINDING"))]
             meta["checks"][c] = {"exit": r.returncode, "seconds": round(time.time() - t0),
                                  "lines": lines[:5], "tail": r.stdout.strip().splitlines()[-3:]}
             print("check", c, json.dumps(meta["checks"][c], indent=1))
     finally:
-        sh("git -C /repo checkout -- src include external")
-        sh("make -C /verif/harness -j16 FLAVOR=rel >/dev/null 2>&1")
+        sh(f"git -C {REPO} checkout -- src include external")
+        sh(f"make -C {VERIF}/harness -j16 FLAVOR=rel REPO={REPO} >/dev/null 2>&1")
     dst = f"/verif/seeded/{name}"
     os.makedirs(dst, exist_ok=True)
     for f in ("patch.diff", "demo.cpp", "notes.md"):
